@@ -1,6 +1,145 @@
-//! placeholder for the Markdown document stream (C06/C10)
+//! C06: Markdown documents built from the grammar (AST first, then rendered), truncations of them, and soups,
+//! through the real MarkdownParser.
 use std::io::Write;
 use std::sync::Arc;
+
 use scrut::expectation::ExpectationMaker;
+use scrut::parsers::markdown::MarkdownParser;
+use scrut::parsers::parser::Parser;
+
+use crate::p_docs::show_tests;
+use crate::p_escape::hex;
 use crate::rng::Rng;
-pub fn main(_mk: &Arc<ExpectationMaker>, _count: u64, _r: &mut Rng, _w: &mut dyn Write) {}
+
+pub const CFGS: [&str; 4] = ["timeout: 3s", "output_stream: stderr", "keep_crlf: true, skip_document_code: 7", "environment: {FOO: bar}"];
+pub const FRONTS: [&[&str]; 3] = [&["total_timeout: 5s"], &["defaults:", "  skip_document_code: 9"], &["defaults:", "  keep_crlf: false", "  environment:", "    FOO: doc", "    BAR: doc"]];
+
+#[derive(Clone)]
+pub enum BLine { Exp(String), Code(String) }
+#[derive(Clone)]
+pub enum Elem {
+    Front(usize), Prose(String), Heading(usize, String), Blank,
+    Foreign(usize, String, Vec<String>),
+    Scrut { n: usize, cfg: Option<usize>, comments: Vec<String>, cmd: Option<(String, Vec<String>, Vec<BLine>)> },
+}
+
+fn word(r: &mut Rng) -> String { r.pick(&["foo", "bar baz", "é ü", "x", "a  b", "hello world", "Straße", "日本", "Title here"]).to_string() }
+fn prose(r: &mut Rng) -> String {
+    match r.below(16) {
+        0 => "`inline` code first".to_string(), 1 => "``two backticks`` at the start".to_string(), 2 => "text with ``` inside".to_string(),
+        3 => "- a list item".to_string(), 4 => "1. numbered".to_string(), 5 => "> quote".to_string(), 6 => "  indented paragraph".to_string(),
+        7 => "---".to_string(), 8 => "$ not a command".to_string(), 9 => "*emphasis*".to_string(), 10 => "#hashtag".to_string(), 11 => "\tTabbed".to_string(),
+        12 => "`".to_string(), 13 => "``".to_string(),
+        _ => word(r),
+    }
+}
+fn body_line(r: &mut Rng, first: bool, n: usize) -> BLine {
+    loop {
+        let e = match r.below(14) {
+            0 => "".to_string(), 1 => " ".to_string(), 2 => "$ second".to_string(), 3 => "> x".to_string(), 4 => "# not a comment".to_string(),
+            5 => "```".to_string(), 6 => "``".to_string(), 7 => format!("{} (glob)", word(r)), 8 => format!("{} (*)", word(r)), 9 => "[x]".to_string(), 10 => "---".to_string(),
+            _ => word(r),
+        };
+        if first && e.starts_with("> ") { continue; }
+        if e.starts_with(&"`".repeat(n)) { continue; }
+        return BLine::Exp(e);
+    }
+}
+pub fn gen_doc(r: &mut Rng) -> Vec<Elem> {
+    let mut d = vec![];
+    if r.chance(1, 4) { d.push(Elem::Front(r.below(FRONTS.len() as u64) as usize)); }
+    let n = r.range(0, 10);
+    for _ in 0..n {
+        match r.below(12) {
+            0 | 1 => { let p = prose(r); if p == "---" && d.is_empty() { continue; } d.push(Elem::Prose(p)); }
+            2 => d.push(Elem::Heading(r.range(1, 3), word(r))),
+            3 | 4 => d.push(Elem::Blank),
+            5 => { let n = r.range(3, 5); let lang = r.pick(&["bash", "sh", "scrut ", "scrutx", "c++", "text {x}", "yaml"]).to_string();
+                   let k = r.range(0, 3);
+                   let mut body: Vec<String> = vec![];
+                   for _ in 0..k { body.push(prose(r)); }
+                   if r.chance(1, 4) { body.push("$ echo not a test".to_string()); body.push("```scrut".to_string()); }
+                   let body: Vec<String> = body.into_iter().filter(|l| !l.starts_with(&"`".repeat(n))).collect();
+                   d.push(Elem::Foreign(n, lang, body)); }
+            _ => {
+                let nb = if r.chance(1, 5) { r.range(4, 5) } else { 3 };
+                let cfg = if r.chance(1, 4) { Some(r.below(CFGS.len() as u64) as usize) } else { None };
+                let comments = (0..(if r.chance(1, 4) { r.range(1, 2) } else { 0 })).map(|_| r.pick(&["# a comment", "#", "#!shebang"]).to_string()).collect();
+                let cmd = if r.chance(1, 10) { None } else {
+                    let c = r.pick(&["echo foo", "true", "ls -la  ", "(exit 3)", "", "echo '```'"]).to_string();
+                    let conts: Vec<String> = (0..(if r.chance(1, 4) { r.range(1, 2) } else { 0 })).map(|_| r.pick(&["more", " indented", ""]).to_string()).collect();
+                    let k = r.range(0, 4); let mut body = vec![]; let mut has_code = false;
+                    for i in 0..k { if !has_code && r.chance(1, 5) { has_code = true; body.push(BLine::Code(r.pick(&["0", "1", "3", "007", "255"]).to_string())); } else { body.push(body_line(r, i == 0, nb)); } }
+                    Some((c, conts, body)) };
+                d.push(Elem::Scrut { n: nb, cfg, comments, cmd });
+            }
+        }
+    }
+    d
+}
+pub fn render(d: &[Elem]) -> Vec<String> {
+    let mut out = vec![];
+    for e in d {
+        match e {
+            Elem::Front(i) => { out.push("---".into()); for l in FRONTS[*i] { out.push(l.to_string()); } out.push("---".into()); }
+            Elem::Prose(p) => out.push(p.clone()), Elem::Heading(k, t) => out.push(format!("{} {}", "#".repeat(*k), t)), Elem::Blank => out.push(String::new()),
+            Elem::Foreign(n, lang, body) => { out.push(format!("{}{}", "`".repeat(*n), lang)); for l in body { out.push(l.clone()); } out.push("`".repeat(*n)); }
+            Elem::Scrut { n, cfg, comments, cmd } => {
+                out.push(format!("{}scrut{}", "`".repeat(*n), cfg.map_or(String::new(), |i| format!(" {{{}}}", CFGS[i]))));
+                for c in comments { out.push(c.clone()); }
+                if let Some((c, conts, body)) = cmd {
+                    out.push(format!("$ {}", c));
+                    for x in conts { out.push(format!("> {}", x)); }
+                    for x in body { match x { BLine::Exp(e) => out.push(e.clone()), BLine::Code(k) => out.push(format!("[{}]", k)) } }
+                }
+                out.push("`".repeat(*n));
+            }
+        }
+    }
+    out
+}
+pub fn ser(d: &[Elem]) -> String {
+    if d.is_empty() { return "-".into(); }
+    let hx = |v: &Vec<String>| if v.is_empty() { "_".to_string() } else { v.iter().map(|x| hex(x.as_bytes())).collect::<Vec<_>>().join(",") };
+    d.iter().map(|e| match e {
+        Elem::Front(i) => format!("F{}", i), Elem::Prose(p) => format!("P{}", hex(p.as_bytes())), Elem::Heading(k, t) => format!("H{}{}", k, hex(t.as_bytes())), Elem::Blank => "B".to_string(),
+        Elem::Foreign(n, lang, body) => format!("V{}{}/{}", n, hex(lang.as_bytes()), hx(body)),
+        Elem::Scrut { n, cfg, comments, cmd } => format!("S{}{}/{}/{}", n, cfg.map_or("-".to_string(), |i| i.to_string()), hx(comments),
+            match cmd { None => "~".to_string(), Some((c, conts, body)) => format!("{}{}/{}", hex(c.as_bytes()), conts.iter().map(|x| format!(",{}", hex(x.as_bytes()))).collect::<String>(),
+                if body.is_empty() { "_".to_string() } else { body.iter().map(|x| match x { BLine::Exp(e) => format!("E{}", hex(e.as_bytes())), BLine::Code(k) => format!("N{}", k) }).collect::<Vec<_>>().join(",") }) }),
+    }).collect::<Vec<_>>().join(";")
+}
+pub fn join_lines(r: &mut Rng, lines: &[String]) -> String {
+    let crlf = r.chance(1, 8);
+    let mut s = lines.join(if crlf { "\r\n" } else { "\n" });
+    if !lines.is_empty() && (r.chance(4, 5) || lines[lines.len() - 1].is_empty()) { s.push_str(if crlf { "\r\n" } else { "\n" }); }
+    s
+}
+fn soup(r: &mut Rng) -> String {
+    let n = r.range(0, 9);
+    let alpha = ["", "---", "```", "```scrut", "````scrut", "```bash", "``x", "`", "$ cmd", "> more", "out", "[1]", "# c", "# Heading", "text", "```scrut {timeout: 3s}", "```scrut {", "```é{x}", "```scrut{}", " ```scrut", "defaults:", "  keep_crlf: true", "````", "```` ", "[2]"];
+    let lines: Vec<String> = (0..n).map(|_| r.pick(&alpha).to_string()).collect();
+    join_lines(r, &lines)
+}
+
+pub fn md_case(p: &MarkdownParser, ast: &str, text: &str) -> String {
+    let res = std::panic::catch_unwind(std::panic::AssertUnwindSafe(|| p.parse(text)));
+    let out = match res { Err(_) => "panic".to_string(), Ok(Err(_)) => "err".into(), Ok(Ok((_, tcs))) => show_tests(&tcs) };
+    format!("D {}|{}|{}", ast, hex(text.as_bytes()), out)
+}
+
+pub fn main(mk: &Arc<ExpectationMaker>, count: u64, r: &mut Rng, w: &mut dyn Write) {
+    let p = MarkdownParser::new(mk.clone(), &["scrut"], None);
+    for i in 0..count {
+        match i % 5 {
+            3 => { let t = soup(r); writeln!(w, "{}", md_case(&p, "~", &t)).unwrap(); }
+            4 => {  // a truncated well-formed document: every prefix must parse to the tests of its complete blocks (+ the one read to the end)
+                let d = gen_doc(r); let lines = render(&d); if lines.is_empty() { continue; }
+                let k = r.range(0, lines.len());
+                let mut t = lines[..k].join("\n"); if k > 0 { t.push('\n'); }
+                writeln!(w, "{}", md_case(&p, &format!("^{}^{}", k, ser(&d)), &t)).unwrap();
+            }
+            _ => { let d = gen_doc(r); let lines = render(&d); let t = join_lines(r, &lines); writeln!(w, "{}", md_case(&p, &ser(&d), &t)).unwrap(); }
+        }
+    }
+}
